@@ -1,6 +1,7 @@
 import AtsimModel.Driver.Json
 import AtsimModel.Gen.Logic
 import AtsimModel.Model.Ini
+import AtsimModel.Model.TableReader
 import AtsimModel.Lemmas.IniOps
 import AtsimModel.Driver.Ini
 /-! Driver for the REGENERATED definitions of `Gen/Logic.lean` (kept apart from the model driver: when the translator cannot translate a function any more
@@ -74,11 +75,18 @@ def handleGen (op : String) (j : Json) : Except String Json := do
     | .ok r => return arrJ (r.map tokJ)
     | .error _ => return Json.str "raised"
   | "setfl" =>
-    -- the header writer is an operation of the translated function (not translated): left out here, the harness drops the header lines of the real file
+    -- the public functions writeSetFL / writeSetFLFinnisSinclair (comments, optional cutoff)
     let els ← parseEamRecs j
-    let dens := if (← getBool j "fs") then setfl_density_fs else setfl_density
-    let r := setfl_write (fun _ _ _ _ _ _ _ out => out) (← getInt j "nrho") (← getRat j "drho") (← getInt j "nr") (← getRat j "dr") 0 els (← parsePotRecs j) [] [] dens
+    let cutoff : Option Rat := (getRat j "cutoff").toOption
+    let w := if (← getBool j "fs") then setfl_write_fs else setfl_write_alloy
+    let r := w (← getInt j "nrho") (← getRat j "drho") (← getInt j "nr") (← getRat j "dr") els (← parsePotRecs j) [] (← getStrs j "comments") cutoff
     return arrJ (r.map tokJ)
+  | "table_reader" =>
+    -- TableReaderBase._findIndex / getValue on sorted rows; bisect_left is the model's count of rows with a smaller abscissa
+    let rows ← (← getArr j "rows").mapM fun r => do return ((← getRat r "x"), (← getRat r "y"))
+    let xs ← (← getArr j "xs").mapM fun x => do match x.getStr? with | .ok t => (getRat (Json.mkObj [("v", Json.str t)]) "v") | .error e => throw e
+    let bl := fun (t : List (Rat × Rat)) (y : Rat) => ((Atsim.bisectLeft t y : Nat) : Int)
+    return arrJ (xs.map fun x => arrJ [match find_index bl rows x with | some i => intJ i | none => Json.null, ratJ (get_value bl rows x)])
   | "lammps" =>
     let r := lammps_write_potentials (← parsePotRecs j) (← getRat j "minr") (← getRat j "maxr") (← getInt j "n") []
     return arrJ (r.map tokJ)
